@@ -99,15 +99,16 @@ def model_run(ast, v):
 
 
 # ============================================================================ classification
-PRIORITY = ['closure-multi', 'recursion'] + ['fn:' + h for h in HOFS] + [
-    'partial-chained', 'partial-dynamic', 'partial-static', 'rebind', 'named-ref', 'array-call', 'simple-map',
-    'typed-param', 'dynamic-call', 'inline']
+# partial application is attributed first: it is the mechanism with listed defects (argument tokens stored on the
+# item and evaluated lazily), and a failing program that uses it anywhere is most likely failing because of it
+PRIORITY = ['partial-chained', 'partial-dynamic', 'partial-static', 'closure-multi', 'recursion'] + \
+    ['fn:' + h for h in HOFS] + ['rebind', 'named-ref', 'array-call', 'simple-map', 'typed-param', 'dynamic-call', 'inline']
 
 
 def feature_of(features, mk=None):
     # fold-left/right mishandle a zero value that is not a singleton: an error for 2+ items, a None item
     # (or an error) for the empty sequence; those symptoms are attributed to that mechanism first
-    if mk is not None:
+    if mk is not None and not any(f in features for f in ('partial-chained', 'partial-dynamic', 'partial-static')):
         if 'fold-zero-multi' in features and mk.startswith('err:'):
             return 'fold-zero-multi'
         if 'fold-zero-empty' in features and (mk.startswith('err:') or mk in ('value:none-item', 'value:count')):
